@@ -265,7 +265,7 @@ fn main() {
                     addr: a,
                     fdl,
                     phy: SimPhy::new(bus.clone(), i),
-                    next_poll: if race > 0 { rng.range(0, race * 1000) } else { rng.range(0, pmax) },
+                    next_poll: if std::env::var_os("RACE_ALIGN").is_some() { let to = (6 + 2 * a as u64) * slot_bits as u64 * 1_000_000 / rate; 2_000_000 - to + rng.range(0, pmax) } else if race > 0 { rng.range(0, race * 1000) } else { rng.range(0, pmax) },
                     pmin,
                     pmax,
                 }
